@@ -133,12 +133,16 @@ class Body:
         ref = _param_table().get(self.name)
         if not ref:
             return
+        ptys = [self.locals[i]["ty"] for i in range(1, self.arg_count + 1)]
+        skip = 1 if self.kind == "closure" else 0       # a closure's first parameter is its environment (type names a source position)
+        if "ptys" in ref and ref["ptys"][skip:] != ptys[skip:]:
+            return      # not the function the table describes (e.g. closure indices shifted): keep the source names
         if len(ref.get("params", [])) == self.arg_count:
             for i, n in enumerate(ref["params"]):
                 if n is not None and self.locals[i + 1].get("name") is not None:
                     self.locals[i + 1] = dict(self.locals[i + 1], name=n)
         ups = self.j.get("upvars")
-        if ups and len(ref.get("upvars", [])) == len(ups):
+        if ups and len(ref.get("upvars", [])) == len(ups) and ("utys" not in ref or ref["utys"] == [u.get("place", {}).get("ty") for u in ups]):
             self.j = dict(self.j, upvars=[dict(u, name=n) if n is not None else u for u, n in zip(ups, ref["upvars"])])
 
     # ---- CFG ----
